@@ -2,4 +2,8 @@
 
 package connectconformance
 
+import conformancev1 "connectrpc.com/conformance/internal/gen/proto/go/connectrpc/conformance/v1"
+
 func verifOverride(_ []string) processStarter { return nil }
+
+func verifOrderCases(_ map[serverInstance][]*conformancev1.TestCase) {}
